@@ -212,8 +212,8 @@ EXPECTED_SITES = {
                                "<DeserializationContext as BinaryInput>::read_u8",
                                "<DeserializationContext as BinaryInput>::read_bytes",
                                "<DeserializationContext as BinaryInput>::skip"},
-    "CompressionFailure": {"BinaryOutput::write_compressed::{closure#0}"},
-    "DecompressionFailure": {"BinaryInput::read_compressed::{closure#0}"},
+    "CompressionFailure": {"BinaryOutput::write_compressed"},
+    "DecompressionFailure": {"BinaryInput::read_compressed"},
     "FailedToDecodeString": {"<Error as From<FromUtf8Error>>::from"},
     "FailedToDecodeCharacter": {"<Error as From<DecodeUtf16Error>>::from"},
 }
